@@ -227,38 +227,42 @@ MxGlmSecond3(m, e, f) == MxOrthoSet3(MxCols(MxGlmTmp(m)), e, f)
      | a_j - sum_i r_ji q_i |_2  <=  |a_j|_2 ( (K-1) sum E + ((K^2+K-2)/2 (L/2+2) + K (L+3)) eps )
    all constants doubled below (the usual slack), rho_i replaced by the power of two P_i >= rho_i, |a_j|_2 by |a_j|_1.
    Domain: g_i > 0 and rho_i <= 4 for every i (every column at least 14.5 degrees off the span of the previous ones). *)
-MxGramMinors(A, K) == LET G == DmGram(MxFirstCols(A, K)) IN [i \in 1..K |-> DmDet(MxLeading(G, i))]
-MxRhoP(A, K) ==          \* P_i in {1, 2, 4}, 0 = outside the domain
-    LET g == MxGramMinors(A, K) IN
-    [i \in 1..K |-> LET a2 == DvDot(MCol(A, i), MCol(A, i)) gp == IF i = 1 THEN DUnit ELSE g[i - 1] lhs == DMul(a2, gp) IN
+\* TLC does not reliably cache LET-bound values inside nested operator applications: values that are used many times are bound
+\* through a singleton set (a quantifier / set constructor binds its variable to an evaluated value)
+MxLet(x, F(_)) == CHOOSE v \in {F(y) : y \in {x}} : TRUE
+MxGramMinors(A, K) == MxLet(DmGram(MxFirstCols(A, K)), LAMBDA G : [i \in 1..K |-> DmDet(MxLeading(G, i))])
+MxRhoPg(A, K, g) ==
+    [i \in 1..K |-> LET a2 == DvDot(MCol(A, i), MCol(A, i)) gp == IF i = 1 THEN DUnit ELSE g[i - 1] IN
                     IF DSign(g[i]) <= 0 \/ (i > 1 /\ DSign(g[i - 1]) <= 0) THEN 0
-                    ELSE IF DLe(lhs, g[i]) THEN 1 ELSE IF DLe(lhs, DMulInt(g[i], 4)) THEN 2 ELSE IF DLe(lhs, DMulInt(g[i], 16)) THEN 4 ELSE 0]
-MxQRDomain(A, K) == LET P == MxRhoP(A, K) IN \A i \in 1..K : P[i] > 0
+                    ELSE MxLet(DMul(a2, gp), LAMBDA lhs : IF DLe(lhs, g[i]) THEN 1 ELSE IF DLe(lhs, DMulInt(g[i], 4)) THEN 2 ELSE IF DLe(lhs, DMulInt(g[i], 16)) THEN 4 ELSE 0)]
+MxRhoP(A, K) == MxLet(MxGramMinors(A, K), LAMBDA g : MxRhoPg(A, K, g))          \* P_i in {1, 2, 4}, 0 = outside the domain
+MxQRDomainP(P) == \A i \in 1..Len(P) : P[i] > 0
+MxQRDomain(A, K) == MxQRDomainP(MxRhoP(A, K))
 \* E_i in units of eps (E_1 = 0: no pair has the larger index 1)
+MxSeqSum(s) == LET RECURSIVE Sum(_) Sum(k) == IF k = 0 THEN 0 ELSE s[k] + Sum(k - 1) IN Sum(Len(s))
 RECURSIVE MxQRE(_, _, _, _)
 MxQRE(P, L, i, acc) ==          \* acc = <<E_1, ..., E_{i-1}>>
     IF i > Len(P) THEN acc
-    ELSE LET s == IF i = 1 THEN 0 ELSE LET RECURSIVE Sum(_) Sum(k) == IF k = 0 THEN 0 ELSE acc[k] + Sum(k - 1) IN Sum(i - 1)
-             Ei == IF i = 1 THEN 0 ELSE P[i] * ((i - 1) * (L + 4) + L + 6 + s)
-         IN MxQRE(P, L, i + 1, Append(acc, Ei))
-MxSeqSum(s) == LET RECURSIVE Sum(_) Sum(k) == IF k = 0 THEN 0 ELSE s[k] + Sum(k - 1) IN Sum(Len(s))
+    ELSE MxQRE(P, L, i + 1, Append(acc, IF i = 1 THEN 0 ELSE P[i] * ((i - 1) * (L + 4) + L + 6 + MxSeqSum(acc))))
 MxQRResK(E, K, L) == K * MxSeqSum(E) + ((K * K + K - 2) * (L + 4)) \div 2 + 2 * K * (L + 3)
 MxQRZerosOk(r) == \A c \in 1..r.c : \A i \in 1..r.r : c < i => DIsZero(MAt(r, c, i))
 MxQROrthOk(q, E, f) ==
     LET L == q.r IN
     \A i \in 1..q.c : \A j \in 1..i :
-        LET d == DvDot(MCol(q, i), MCol(q, j)) IN
-        IF i = j THEN DNear(d, DUnit, DTol(L + 6, DUnit, f)) ELSE DLe(DAbs(d), DTol(E[i], DUnit, f))
+        \E d \in {DvDot(MCol(q, i), MCol(q, j))} :
+           IF i = j THEN DNear(d, DUnit, DTol(L + 6, DUnit, f)) ELSE DLe(DAbs(d), DTol(E[i], DUnit, f))
 MxQRResidualOk(A, q, r, E, f) ==
-    LET K == q.c L == q.r k == MxQRResK(E, K, L) P == DmMul(q, r) IN
-    \A c \in 1..A.c : LET n1 == DvNorm1(MCol(A, c)) IN \A i \in 1..A.r : DLe(DAbs(DSub(MAt(A, c, i), MAt(P, c, i))), DTol(k, n1, f))
-MxQRPost(A, q, r, f) ==
-    LET K == MxK(A.c, A.r) E == MxQRE(MxRhoP(A, K), A.r, 1, << >>) IN
-    /\ q.c = K /\ q.r = A.r /\ r.c = A.c /\ r.r = K
-    /\ MxQRZerosOk(r) /\ MxQROrthOk(q, E, f) /\ MxQRResidualOk(A, q, r, E, f)
+    \E k \in {MxQRResK(E, q.c, q.r)} : \E P \in {DmMul(q, r)} :
+       \A c \in 1..A.c : \E n1 \in {DvNorm1(MCol(A, c))} : \A i \in 1..A.r : DLe(DAbs(DSub(MAt(A, c, i), MAt(P, c, i))), DTol(k, n1, f))
+\* P = MxRhoP(A, K) inside the domain
+MxQRPostP(A, q, r, P, f) ==
+    \E K \in {MxK(A.c, A.r)} : \E E \in {MxQRE(P, A.r, 1, << >>)} :
+       /\ q.c = K /\ q.r = A.r /\ r.c = A.c /\ r.r = K
+       /\ MxQRZerosOk(r) /\ MxQROrthOk(q, E, f) /\ MxQRResidualOk(A, q, r, E, f)
+MxQRPost(A, q, r, f) == \E P \in {MxRhoP(A, MxK(A.c, A.r))} : MxQRPostP(A, q, r, P, f)
 \* the same through the transformation rq_decompose is defined by (Part 1b)
 MxRQDomain(A) == MxQRDomain(MxRQin(A), MxK(A.c, A.r))
-MxRQPost(A, r, q, f) == MxQRPost(MxRQin(A), MxRQq(q), MxRQr(r), f)
+MxRQPost(A, r, q, f) == \E B \in {MxRQin(A)} : \E tq \in {MxRQq(q)} : \E tr \in {MxRQr(r)} : MxQRPost(B, tq, tr, f)
 \* the documented statement of rq_decompose read directly (used by MC_X02 to tie the transformation to the documentation)
 MxRQZerosOk(r) == \A c \in 1..r.c : \A i \in 1..r.r : (r.r - i) < (r.c - c) => DIsZero(MAt(r, c, i))
 
